@@ -40,14 +40,27 @@ package nsqd
 // (GetMetadata asks every topic IsPaused(), which records its answer in the lTPause* ghosts of zz_contracts_ltopic_verif.go)
 //@ ghostgroup gMetaCalls, lTPauseFor, lTPauseObs
 
+//@ pred r4BTopicListed(doc *Metadata, tp *Topic, eph bool) := exists i int :: {doc.Topics[i]} 0 <= i && i < len(doc.Topics) && gTopicEntry(doc.Topics[i], tp, eph)
+//@ pred r4BChanNamesDistinct(e TopicMetadata) := forall i int, j int :: {e.Channels[i], e.Channels[j]} 0 <= i && i < j && j < len(e.Channels) ==> e.Channels[i].Name != e.Channels[j].Name
+// the channel list of entry e covers every non-ephemeral channel that was in tp.channelMap when tp's lock was released last
+//@ pred r4BChansComplete(e TopicMetadata, tp *Topic) := forall c string :: {atunlock(tp.channelMap[c], "RWMutex")} atunlock(has(tp.channelMap, c), "RWMutex") && !atunlock(tp.channelMap[c], "RWMutex").ephemeral ==>
+//@      (exists j int :: {e.Channels[j]} 0 <= j && j < len(e.Channels) && gChanEntry(e.Channels[j], atunlock(tp.channelMap[c], "RWMutex")))
 //@ func (n *NSQD) GetMetadata(ephemeral bool) *Metadata
 //@   props C06 C05
 //@   nochan
 //@   requires[locked-map] gTopicsOK(n)
+//   (round 4) every topic is registered under its own name (lock invariant [keyed-by-name] of NSQD.RWMutex, which the caller holds)
+//@   requires[keyed-by-name] forall k string :: {n.topicMap[k]} has(n.topicMap, k) ==> n.topicMap[k].name == k
 //@   ensures[doc] result != nil && fresh(result)
 //@   ensures[topics-sound] forall i int :: {result.Topics[i]} 0 <= i && i < len(result.Topics) ==>
 //@        (exists k string :: {n.topicMap[k]} has(n.topicMap, k) && gTopicEntry(result.Topics[i], n.topicMap[k], ephemeral))
 //@   ensures[map-untouched] n.topicMap == old(n.topicMap) && len(n.topicMap) == old(len(n.topicMap))
+//   (round 4, area B; C05 "every non-ephemeral topic and channel exists again with its paused flag", C06 "it includes every creation")
+//   COMPLETENESS: every topic of topicMap that is not ephemeral (every topic at all if ephemeral == true) has an entry with its name and
+//   pause flag - whatever its exit flag says (Exit() closes every topic and a Notify goroutine may persist once more afterwards)
+//@   ensures[every-topic-listed] forall k string :: {n.topicMap[k]} has(n.topicMap, k) && (ephemeral || !n.topicMap[k].ephemeral) ==> r4BTopicListed(result, n.topicMap[k], ephemeral)
+//   no topic is listed twice (a loader would create it once and apply the pause flag of whichever entry comes last)
+//@   ensures[no-duplicate-topics] forall i int, j int :: {result.Topics[i], result.Topics[j]} 0 <= i && i < j && j < len(result.Topics) ==> result.Topics[i].Name != result.Topics[j].Name
 //@   modifies Topic.channelMap, mapstore(map[string]*Channel), gMetaCalls, gMetaDoc, gMetaEph, gMetaOf, gMetaSawTopicPauses, gMetaSawChanPauses
 //@   onreturn gMetaCalls := gMetaCalls + 1
 //@   onreturn gMetaDoc := result
@@ -59,8 +72,29 @@ package nsqd
 //@     invariant[doc] meta != nil && fresh(meta) && fresh(meta.Topics)
 //@     invariant[topics-sound] forall i int :: {meta.Topics[i]} 0 <= i && i < len(meta.Topics) ==>
 //@        (exists k string :: {n.topicMap[k]} has(n.topicMap, k) && gTopicEntry(meta.Topics[i], n.topicMap[k], ephemeral))
+//     (round 4) every topic yielded so far that has to be listed is listed
+//@     invariant[visited-listed] forall k string :: {n.topicMap[k]} visited(k) && (ephemeral || !n.topicMap[k].ephemeral) ==> r4BTopicListed(meta, n.topicMap[k], ephemeral)
+//     (round 4) every entry is named after a key yielded so far - the key yielded next is a new one, so names stay distinct
+//@     invariant[entries-are-visited] forall i int :: {meta.Topics[i]} 0 <= i && i < len(meta.Topics) ==> visited(meta.Topics[i].Name)
+//@     invariant[no-duplicate-topics] forall i int, j int :: {meta.Topics[i], meta.Topics[j]} 0 <= i && i < j && j < len(meta.Topics) ==> meta.Topics[i].Name != meta.Topics[j].Name
+//@     invariant[last-entry-no-duplicate-channels] len(meta.Topics) > 0 ==> r4BChanNamesDistinct(meta.Topics[len(meta.Topics) - 1])
+//     (round 4) the entry appended last carries the COMPLETE channel list of its topic: every non-ephemeral channel that was in the
+//     topic's map when the topic lock was released (the most recent release of a topic lock is the one of that entry's iteration)
+//@     invariant[last-entry-channels-complete] len(meta.Topics) > 0 ==> has(n.topicMap, meta.Topics[len(meta.Topics) - 1].Name) &&
+//@          r4BChansComplete(meta.Topics[len(meta.Topics) - 1], n.topicMap[meta.Topics[len(meta.Topics) - 1].Name])
 //@   loop 1
 //@     invariant[doc] meta != nil && fresh(meta) && fresh(meta.Topics) && topic != nil && fresh(topicData.Channels)
+//     (round 4) ... the topic being worked on is yielded but not listed yet; it has to be listed (the skip test is behind us)
+//@     invariant[others-listed] forall k string :: {n.topicMap[k]} visited(k, 0) && n.topicMap[k] != topic && (ephemeral || !n.topicMap[k].ephemeral) ==> r4BTopicListed(meta, n.topicMap[k], ephemeral)
+//@     invariant[entries-are-visited] forall i int :: {meta.Topics[i]} 0 <= i && i < len(meta.Topics) ==> visited(meta.Topics[i].Name, 0) && meta.Topics[i].Name != topic.name
+//@     invariant[no-duplicate-topics] forall i int, j int :: {meta.Topics[i], meta.Topics[j]} 0 <= i && i < j && j < len(meta.Topics) ==> meta.Topics[i].Name != meta.Topics[j].Name
+//     (round 4) no channel is listed twice within a topic entry (channels are registered under their own names: Topic.RWMutex [keyed-by-name])
+//@     invariant[channel-entries-are-visited] forall j int :: {topicData.Channels[j]} 0 <= j && j < len(topicData.Channels) ==> visited(topicData.Channels[j].Name)
+//@     invariant[no-duplicate-channels] r4BChanNamesDistinct(topicData)
+//     (round 4) every channel of this topic yielded so far that is not ephemeral is in the topic's entry, with its name and pause flag -
+//     whatever its exit flag says; at the end of this loop (every key yielded) the entry's channel list is complete w.r.t. the map under the topic lock
+//@     invariant[visited-channels-listed] forall c string :: {topic.channelMap[c]} visited(c) && !topic.channelMap[c].ephemeral ==>
+//@        (exists j int :: {topicData.Channels[j]} 0 <= j && j < len(topicData.Channels) && gChanEntry(topicData.Channels[j], topic.channelMap[c]))
 //@     invariant[topic-entry] topicData.Name == topic.name && (topicData.Paused <==> topic.paused == 1) && (!topic.ephemeral || ephemeral)
 //@     invariant[channels-sound] forall j int :: {topicData.Channels[j]} 0 <= j && j < len(topicData.Channels) ==>
 //@        (exists c string :: {topic.channelMap[c]} has(topic.channelMap, c) && gChanEntry(topicData.Channels[j], topic.channelMap[c]))
@@ -82,6 +116,17 @@ package nsqd
 //@   nochan
 //@   requires[locked-map] gTopicsOK(n)
 //@   requires n != nil
+//   (round 4, area B; C06 "the set of topics and channels is one the daemon actually passed through, it includes every creation ...
+//   that had completed before the daemon was last idle") snapshot + temp-file write + rename are ONE critical section of the NSQD
+//   WRITE lock: two persists never overlap, so the document renamed last is the one built last. Every caller in the repository
+//   (Notify$1, Exit, doPauseTopic, doPauseChannel) proves it; apps/nsqd start-up (single-threaded, before Main) is outside the contracts.
+//@   requires[write-locked] holdsw(n, "RWMutex")
+//   (round 4) lock invariant [keyed-by-name] of the NSQD lock the caller holds (GetMetadata's no-duplicates / channel clauses need it)
+//@   requires[keyed-by-name] forall k string :: {n.topicMap[k]} has(n.topicMap, k) ==> n.topicMap[k].name == k
+//   (round 4; C05 "every non-ephemeral topic ... exists again with its paused flag", C06 "includes every creation") the document that is
+//   marshalled and written lists EVERY non-ephemeral topic that is in topicMap under the caller's lock, with name and pause flag, once
+//@   ensures[document-lists-every-durable-topic] forall k string :: {n.topicMap[k]} has(n.topicMap, k) && !n.topicMap[k].ephemeral ==> r4BTopicListed(gMetaDoc, n.topicMap[k], false)
+//@   ensures[document-lists-no-topic-twice] forall i int, j int :: {gMetaDoc.Topics[i], gMetaDoc.Topics[j]} 0 <= i && i < j && j < len(gMetaDoc.Topics) ==> gMetaDoc.Topics[i].Name != gMetaDoc.Topics[j].Name
 //@   ensures[document-is-GetMetadata-false] gMetaCalls == old(gMetaCalls) + 1 && gMetaOf == n && !gMetaEph
 //@   ensures[marshal-of-that-document] dyntype(gMarshalArg) == typetag("*Metadata") && unbox(gMarshalArg, "*Metadata") == gMetaDoc
 //@   ensures[marshal-error-returned] gMarshalErr != nil ==> result == gMarshalErr && gfsOpens == old(gfsOpens) && gfsRenames == old(gfsRenames)
